@@ -1,0 +1,10 @@
+//go:build verif
+
+package influxql
+
+// The package initialiser establishes every package-level invariant (globalinv)
+// that the other contracts assume; C17 shows that nothing writes package-level
+// state afterwards.
+//@ func init
+//@   props C04 C10 C17
+//@   establishes globalinvs
